@@ -103,6 +103,9 @@ template <class Solver, class Prm> static result run_mpi(const strip &s, const P
         r.it = (long long)it; r.res.pod(res);
         gather_digest(x.data(), x.size(), r.x);
         amgcl::backend::numa_vector<double> f(s.rhs), y(s.n);
+        for (ptrdiff_t i = 0; i < s.n; ++i) y[i] = 1.0 + 0.25 * (double)(i % 7);
+        solve.precond().apply(f, y);
+        gather_digest(y.data(), s.n, r.px);
         solve.precond().apply(f, y);
         gather_digest(y.data(), s.n, r.px);
         if (RANK == 0) { std::ostringstream os; os << solve.precond(); std::string t = os.str(); r.txt.bytes(t.data(), t.size()); }
